@@ -896,6 +896,9 @@ func (s *Storm) Run(clients, perClient int, faults bool) {
 		}
 		k.Count("rendezvous_rounds", int64(rounds))
 	}
+	// idle instances stay the pool's, however many garbage collections pass
+	runtime.GC()
+	runtime.GC()
 	// phase 3: the pool can still serve max simultaneous requests; they reach every instance
 	// and must see none of the keys injected during the storm
 	before := len(s.dones)
